@@ -14,7 +14,13 @@ from typing import TYPE_CHECKING, BinaryIO, Final, Optional
 
 from . import hdrs
 from .abc import AbstractStreamWriter
-from .helpers import DEFAULT_CHUNK_SIZE, ETAG_ANY, ETag, must_be_empty_body
+from .helpers import (
+    DEFAULT_CHUNK_SIZE,
+    ETAG_ANY,
+    ETag,
+    _has_zero_weight,
+    must_be_empty_body,
+)
 from .typedefs import LooseHeaders, PathLike
 from .web_exceptions import (
     HTTPForbidden,
@@ -85,17 +91,6 @@ _CLOSE_FUTURES: set[asyncio.Future[None]] = set()
 _RANGE_SET_RE: Final = re.compile(
     r"bytes=(?:\d+-\d*|-\d+)(?:[ \t]*,[ \t]*(?:\d+-\d*|-\d+))+", re.ASCII
 )
-
-
-def _has_zero_weight(coding: str) -> bool:
-    """Check if an Accept-Encoding list member has the weight 0 (";q=0")."""
-    name, _, value = coding.partition(";")[2].partition("=")
-    if name.strip() != "q":
-        return False
-    try:
-        return float(value) == 0
-    except ValueError:
-        return False
 
 
 class FileResponse(StreamResponse):
